@@ -59,4 +59,35 @@ pub fn run(cx: &mut Ctx) {
             }
         });
     }
+    // "for both graph backends": the same diagrams rebuilt on the hash backend (same vertex names), the composite simplifiers run there,
+    // exact tensor compared with the ORIGINAL's (a subset: the hash backend's tensor evaluation is ~20x slower)
+    fn to_hash(g: &Graph) -> Result<quizx::hash_graph::Graph, String> {
+        let mut h = quizx::hash_graph::Graph::new();
+        let mut vs: Vec<usize> = g.vertices().collect(); vs.sort();
+        for v in vs { h.add_named_vertex_with_data(v, g.vertex_data(v).clone()).map_err(|e| e.to_string())?; }
+        for (s, t, et) in g.edges() { h.add_edge_with_type(s, t, et); }
+        h.set_inputs(g.inputs().clone()); h.set_outputs(g.outputs().clone());
+        *h.scalar_mut() = *g.scalar();
+        Ok(h)
+    }
+    type H = quizx::hash_graph::Graph;
+    let hsimps: Vec<(&str, fn(&mut H) -> bool)> = vec![
+        ("clifford_simp", |g| clifford_simp(g)), ("full_simp", |g| full_simp(g)), ("flow_simp", |g| flow_simp(g)), ("fuse_gadgets", |g| fuse_gadgets(g)), ("scalar_simp", |g| scalar_simp(g)),
+    ];
+    cx.check("simp_on_hash_backend", |cb| {
+        use quizx::tensor::ToTensor;
+        for (k, g) in diagrams.iter().enumerate() { if k % 6 != 0 { continue; }
+            for (name, f) in &hsimps {
+                let res = (|| {
+                    let mut h = guard(|| to_hash(g))??;
+                    let before = guard(|| h.to_tensor4())?;
+                    if before != guard(|| g.to_tensor4())? { return Err("the rebuilt hash-backend diagram already denotes another tensor".to_string()); }
+                    guard(|| { f(&mut h); })?;
+                    if h.inputs().len() != g.inputs().len() || h.outputs().len() != g.outputs().len() { return Err("the number of inputs / outputs changed".to_string()); }
+                    if guard(|| h.to_tensor4())? == before { Ok(()) } else { Err("the exact tensor changed on the hash backend".to_string()) }
+                })();
+                cb(&|| format!("{} (hash backend) on {}", name, describe(g)), res);
+            }
+        }
+    });
 }
